@@ -24,6 +24,9 @@ pub struct Corpus {
     /// strings whose top 64-bit limb equals the modulus' top limb: valid encodings in that band, and
     /// aliases s + q of small valid s (non-canonical, but a limb-wise range check may let them through)
     pub band: Vec<[u8; 32]>,
+    seed: u64,
+    /// built on first use (root finding costs about a second): see `table_probe`
+    table_probe: std::sync::OnceLock<Vec<[u8; 32]>>,
 }
 
 fn arr32(v: &[u8]) -> [u8; 32] {
@@ -127,7 +130,26 @@ impl Corpus {
             nonsquare,
             boundary_valid,
             band,
+            seed,
+            table_probe: std::sync::OnceLock::new(),
         }
+    }
+
+    /// Canonical non-negative s whose discriminant was *chosen*: the ratio whose square root decoding
+    /// takes has a prescribed 47-bit table-digit pattern (all ones, single windows, carries of the
+    /// halving). Found by solving the quartic in u_1 (simcore::poly); half are valid, half non-square.
+    pub fn table_probe(&self) -> &Vec<[u8; 32]> {
+        self.table_probe.get_or_init(|| {
+            let f = fq();
+            let mut rng = Rng::new(simcore::prng::sub_seed(self.seed, "corpus/table_probe"));
+            let mut out = Vec::new();
+            for e in simcore::poly::table_digit_patterns() {
+                if let Some(s) = simcore::poly::encoding_with_table_digits(f, &rd::d(), rd::zeta(), e, &mut rng) {
+                    out.push(arr32(&f.to_le(&s)));
+                }
+            }
+            out
+        })
     }
 }
 
@@ -146,7 +168,7 @@ pub fn near_miss(rng: &mut Rng, c: &Corpus) -> [u8; 32] {
     let base = *rng.pick(&c.valid);
     let s = Fld::int_le(&base);
     let two253: BigUint = BigUint::from(1u32) << 253;
-    let choice = rng.below(20);
+    let choice = rng.below(21);
     let cand: Option<[u8; 32]> = match choice {
         0 => le32(&(&s + q)),                           // alias s+q (fits below 2^256)
         1 => le32(&f.neg(&s)),                          // q - s
@@ -178,6 +200,10 @@ pub fn near_miss(rng: &mut Rng, c: &Corpus) -> [u8; 32] {
         }
         17 => le32(&(q - 2u32)),
         18 => Some(c.band[rng.usize_below(c.band.len())]),
+        19 => {
+            let t = c.table_probe();
+            if t.is_empty() { None } else { Some(t[rng.usize_below(t.len())]) }
+        }
         _ => Some(rng.array32()),
     };
     cand.unwrap_or_else(|| rng.array32())
